@@ -13,12 +13,12 @@ LEVEL = "exploration"
 RULE = ("case = one real-RunEngine execution of rel_set / mvr / relative_set_wrapper / reset_positions_wrapper / rel_scan / "
         "rel_list_scan / rel_grid_scan / rel_log_scan / x2x_scan on 1-3 fake movers of three position-discovery kinds "
         "(Locatable, .position attribute, read-only with/without hints) at seeded initial positions with seeded offsets, "
-        "ending by success, by a device failure at a seeded step (raise / failed status), or by stop / abort landing at a "
+        "ending by success, by a detector failure at a seeded step (raise / failed status), by a mover's own motion status failing at its 1st/2nd set, or by stop / abort landing at a "
         "seeded loop coordinate; oracle: every target commanded by the body equals initial + requested offset, and for "
         "the resetting plans/wrappers the LAST set of every moved device equals its initial position on every exit path; "
         "distinct = (plan, device kinds, exit path)")
-ASSUMPTIONS = ["tolerance 1e-12 relative on positions", "halt (no cleanup by definition) is not an exit 'with cleanup'"]
-REQUIRED_COUNTERS = {"executions": 400, "targets_checked": 1500, "resets_checked": 400, "failure_exits": 80,
+ASSUMPTIONS = ["tolerance 1e-12 relative on positions", "a Locatable's initial position is its setpoint (its readback is 0.02 off in these fakes)", "halt (no cleanup by definition) is not an exit 'with cleanup'"]
+REQUIRED_COUNTERS = {"set_failure_exits": 30, "executions": 400, "targets_checked": 1500, "resets_checked": 400, "failure_exits": 80,
                      "stop_abort_exits": 40, "readonly_position_devices": 60, "locatable_devices": 60}
 MANIFEST = {
     "technique": "device-ledger oracle (commanded targets vs initial+offset, last set vs initial) on real executions over "
@@ -33,6 +33,14 @@ MANIFEST = {
 PLANS = ["rel_set", "mvr", "relative_set_wrapper", "reset_positions_wrapper", "rel_scan", "rel_list_scan", "rel_grid_scan",
          "rel_log_scan", "x2x_scan"]
 RESETTING = {"reset_positions_wrapper", "rel_scan", "rel_list_scan", "rel_grid_scan", "rel_log_scan", "x2x_scan"}
+
+
+class LocMotorRB(LocMotor):
+    """Locatable whose readback differs from its setpoint (following error): the setpoint is the position to use."""
+
+    def locate(self):
+        self._rec("locate")
+        return self._ret("locate", {"setpoint": self.position, "readback": self.position + 0.02})
 
 
 class ReadMotor(Base):
@@ -90,7 +98,7 @@ def run_case(case):
         rng = rng_for(case["seed"], "C24", i)
         sub = {"start": i, "count": 1, "seed": case["seed"]}
         pname = PLANS[i % len(PLANS)]
-        exit_kind = rng.choice(["success", "success", "fault-raise", "fault-status", "stop", "abort"])
+        exit_kind = rng.choice(["success", "success", "fault-raise", "fault-status", "fault-set-status", "stop", "abort"])
         faults = {}
         h = Harness()
         nm = 2 if pname in ("x2x_scan", "mvr", "rel_grid_scan") else rng.randint(1, 3)
@@ -103,12 +111,16 @@ def run_case(case):
             faults[("det", "trigger", rng.randint(1, 3))] = "raise"
         elif exit_kind == "fault-status":
             faults[("det", "trigger", rng.randint(1, 3))] = "fail-now"
+        elif exit_kind == "fault-set-status":
+            # a mover's own motion fails at once (its 1st or 2nd set): the failure reaches the plan at the next message,
+            # possibly the first set of ANOTHER device, which did move
+            faults[(f"m{rng.randrange(nm)}", "set", rng.randint(1, 2))] = "fail-now"
         motors = []
         for k in range(nm):
             if kinds[k] == "position":
                 motors.append(Motor(f"m{k}", h.log, faults, delay=None, pos=init[k]))
             elif kinds[k] == "locatable":
-                m = LocMotor(f"m{k}", h.log, faults, delay=None, pos=init[k])
+                m = LocMotorRB(f"m{k}", h.log, faults, delay=None, pos=init[k])
                 motors.append(m)
             else:
                 motors.append(ReadMotor(f"m{k}", h.log, faults, pos=init[k], hinted=kinds[k] == "readonly"))
@@ -189,6 +201,7 @@ def run_case(case):
         problems = []
         counters = {"executions": 1, "targets_checked": 0, "resets_checked": 0,
                     "failure_exits": int(faulted), "stop_abort_exits": int(landed),
+                    "set_failure_exits": int(faulted and exit_kind == "fault-set-status"),
                     "readonly_position_devices": sum(1 for k in kinds if k.startswith("readonly")),
                     "locatable_devices": sum(1 for k in kinds if k == "locatable")}
         if state != "idle":
